@@ -49,13 +49,61 @@ Print Assumptions C15_never_corrupts.
    list, the service invoke list, the core, and the exits in exactly the reverse order; every
    installed handler once per time it was added, in order of addition *)
 Theorem C15_trace_onion : forall pool, guard pool -> pool_plain pool -> forall ops r,
-  ctx_mark r = None ->   (* the call's context is live *)
+  plain_req r ->   (* the call's context is live and the method called is echo *)
   let s := snd (run pool ops sys_init) in
   let t := snd (spec_run pool ops ssys_init) in
   call pool r s = (s, onion_trace layers (fun L => spec_list L t) r (ROk (r ++ [99%N])),
                    ROk (r ++ [99%N])).
 Proof. exact trace_onion. Qed.
 Print Assumptions C15_trace_onion.
+
+(* (guarded) every outcome at once: whatever the state of the call's context and whether the
+   method returns, fails or panics, the call's trace and result are [onion_tr]: on the way in
+   every layer's handlers see the request in order of addition; on the way back every layer's
+   handlers see, in reverse order, the (value, error) their built-in handler produced from the
+   layer below ([back]): Execute's error, Process' recovered panic as an error RETURNED up the
+   service IO chain, Handle's error bytes with nil error over the wire and through the client
+   IO chain, the decoded error through the client invoke chain *)
+Theorem C15_onion_all_outcomes : forall pool, guard pool -> pool_plain pool -> forall ops r,
+  let s := snd (run pool ops sys_init) in
+  let t := snd (spec_run pool ops ssys_init) in
+  call pool r s = (s, fst (onion_tr layers (fun L => spec_list L t) r),
+                   snd (onion_tr layers (fun L => spec_list L t) r)).
+Proof. exact call_plain_any. Qed.
+Print Assumptions C15_onion_all_outcomes.
+
+(* (guarded) spelled out for a failing method (8001: returns error 77; 8002: panics, code 78):
+   the error travels back through EVERY outer handler: as an error through the service invoke
+   handlers (none for a panic: it unwinds through them) and the service IO handlers, as error
+   bytes through the client IO handlers, as an error again through the client invoke handlers *)
+Theorem C15_errors_travel_back : forall pool, guard pool -> pool_plain pool -> forall ops r,
+  ctx_mark r = None ->
+  let s := snd (run pool ops sys_init) in
+  let lst := fun L => spec_list L (snd (spec_run pool ops ssys_init)) in
+  (meth_mark r = Some 8001%N ->
+   call pool r s =
+   (s, enters LCI (lst LCI) r ++ (enters LCO (lst LCO) r ++ (enters LSO (lst LSO) r ++
+      (enters LSI (lst LSI) r ++ [ECore r] ++ exits LSI (rev (lst LSI)) (RErr 77))
+      ++ exits LSO (rev (lst LSO)) (RErr 77))
+      ++ exits LCO (rev (lst LCO)) (RWire 77))
+      ++ exits LCI (rev (lst LCI)) (RErr 77), RErr 77)) /\
+  (meth_mark r = Some 8002%N ->
+   call pool r s =
+   (s, enters LCI (lst LCI) r ++ (enters LCO (lst LCO) r ++ (enters LSO (lst LSO) r ++
+      (enters LSI (lst LSI) r ++ [ECore r] ++ [])
+      ++ exits LSO (rev (lst LSO)) (RErr 78))
+      ++ exits LCO (rev (lst LCO)) (RWire 78))
+      ++ exits LCI (rev (lst LCI)) (RErr 78), RErr 78)).
+Proof. exact trace_fails. Qed.
+Print Assumptions C15_errors_travel_back.
+
+(* (guarded) the chain is looked up at each call: a call leaves nothing behind in the managers
+   (no per-context copy of a chain exists in the model), so the state -- and with it what every
+   later call runs -- is the same whether or not earlier calls were made, with whatever context *)
+Theorem C15_chain_looked_up_per_call : forall pool, guard pool -> pool_plain pool -> forall ops q,
+  snd (run pool (ops ++ [OCall q]) sys_init) = snd (run pool ops sys_init).
+Proof. exact calls_leave_no_state. Qed.
+Print Assumptions C15_chain_looked_up_per_call.
 
 (* (guarded) a call whose context is ALREADY done (cancelled, deadline passed) on entry: every
    installed client handler is still entered and left exactly once, in order; nothing in the
@@ -327,6 +375,29 @@ Example done_context_history :
             EExit LCO 2 (ROk [5%N; 2%N; 99%N; 102%N]); EExit LCI 1 (ROk [5%N; 2%N; 99%N; 102%N])]
            (ROk [5%N; 2%N; 99%N; 102%N])].
 Proof. vm_compute. reflexivity. Qed.
+
+(* a failing method and a short-circuiting service invoke handler: (value, error) at every layer *)
+Example failing_history :
+  fst (run [VInvokeFn (hB 10 1 BPass []); VIOFn (hB 20 2 BPass []); VInvokeFn (hB 11 3 BShortErr [])]
+           [OM (MUse NClient [0; 1]%nat); OM (MUse NService [1; 0]%nat); OCall [8001%N; 5%N]; OCall [8002%N];
+            OM (MUse NService [2]%nat); OCall [5%N]]
+           sys_init) =
+  [OutStatus SOk; OutStatus SOk;
+   OutCall [EEnter LCI 1 [8001%N; 5%N]; EEnter LCO 2 [8001%N; 5%N]; EEnter LSO 2 [8001%N; 5%N];
+            EEnter LSI 1 [8001%N; 5%N]; ECore [8001%N; 5%N];
+            EExit LSI 1 (RErr 77); EExit LSO 2 (RErr 77); EExit LCO 2 (RWire 77); EExit LCI 1 (RErr 77)] (RErr 77);
+   OutCall [EEnter LCI 1 [8002%N]; EEnter LCO 2 [8002%N]; EEnter LSO 2 [8002%N];
+            EEnter LSI 1 [8002%N]; ECore [8002%N];
+            EExit LSO 2 (RErr 78); EExit LCO 2 (RWire 78); EExit LCI 1 (RErr 78)] (RErr 78);
+   OutStatus SOk;
+   OutCall [EEnter LCI 1 [5%N]; EEnter LCO 2 [5%N]; EEnter LSO 2 [5%N];
+            EEnter LSI 1 [5%N]; EEnter LSI 3 [5%N]; EExit LSI 3 (RErr 3); EExit LSI 1 (RErr 3);
+            EExit LSO 2 (RErr 3); EExit LCO 2 (RWire 3); EExit LCI 1 (RErr 3)] (RErr 3)].
+Proof. vm_compute. reflexivity. Qed.
+
+Example plain_req_nonvacuous : plain_req [5%N; 7%N] /\ meth_mark [8001%N; 5%N] = Some 8001%N /\
+  ctx_mark [9002%N; 8002%N] = Some 9002%N /\ meth_mark [9002%N; 8002%N] = Some 8002%N.
+Proof. repeat split. Qed.
 
 Example disjoint_mutators_nonvacuous :
   let a := hB 1 1 BPass [] in let b := hB 2 2 BPass [] in
